@@ -452,7 +452,136 @@ func (c *Conc) Docs(w *World, st *Style) []Doc {
 			delete(m, "namespace")
 		}
 	}
+	respell(docs, st)
 	return docs
+}
+
+func (s *Style) oneIn(n int) bool { return s.R != nil && s.R.Intn(n) == 0 }
+
+// emptyOrNull: an absent list spelled out as [] or as null
+func (s *Style) emptyOrNull() interface{} {
+	if s.coin() {
+		return []interface{}{}
+	}
+	return nil
+}
+
+func respellSelectors(x interface{}, st *Style) {
+	switch v := x.(type) {
+	case obj:
+		for k, c := range v {
+			if (k == "podSelector" || k == "namespaceSelector" || k == "namespaces") && c != nil {
+				if so, ok := c.(obj); ok {
+					if _, has := so["matchLabels"]; !has && st.oneIn(4) {
+						so["matchLabels"] = obj{}
+					}
+					if _, has := so["matchExpressions"]; !has && st.oneIn(4) {
+						so["matchExpressions"] = st.emptyOrNull()
+					}
+				}
+			}
+			respellSelectors(c, st)
+		}
+	case []interface{}:
+		for _, c := range v {
+			respellSelectors(c, st)
+		}
+	}
+}
+
+// respell: semantically neutral re-spellings of the canonical documents, the way manifests look in the wild -- absent lists
+// written as [] or null, empty matchLabels / matchExpressions, the read-only metadata and status of an exported object.
+func respell(docs []Doc, st *Style) {
+	if st == nil || st.R == nil {
+		return
+	}
+	for i := range docs {
+		o := docs[i].Obj
+		if m, ok := o["metadata"].(obj); ok && docs[i].Kind != "Namespace" {
+			if st.oneIn(4) {
+				m["creationTimestamp"] = nil
+			}
+			if st.oneIn(5) {
+				m["annotations"] = obj{"kubectl.kubernetes.io/last-applied-configuration": "{}", "note": "exported"}
+				m["resourceVersion"] = "12345"
+				m["uid"] = "6f1c2a3e-0000-4000-8000-00000000abcd"
+				m["generation"] = 3
+			}
+		}
+		if docs[i].Kind == "NetworkPolicy" {
+			spec, _ := o["spec"].(obj)
+			if spec != nil {
+				for _, key := range []struct{ sec, peers string }{{"ingress", "from"}, {"egress", "to"}} {
+					rules, has := spec[key.sec].([]interface{})
+					if !has {
+						// (without policyTypes Egress is governed only if there are egress RULES: an empty section is no rule)
+						if st.oneIn(4) {
+							spec[key.sec] = st.emptyOrNull()
+						}
+						continue
+					}
+					for _, r := range rules {
+						ro, _ := r.(obj)
+						if ro == nil {
+							continue
+						}
+						if _, has := ro[key.peers]; !has && st.oneIn(3) {
+							ro[key.peers] = st.emptyOrNull()
+						}
+						if _, has := ro["ports"]; !has && st.oneIn(3) {
+							ro["ports"] = st.emptyOrNull()
+						}
+					}
+				}
+				if st.oneIn(5) {
+					o["status"] = obj{}
+				}
+			}
+		}
+		respellSelectors(o["spec"], st)
+		if docs[i].Kind == "NetworkPolicy" {
+			respellCidrs(o["spec"], st)
+		}
+	}
+}
+
+// hostBits: the same network written with host bits set ("10.1.2.3/8" is 10.0.0.0/8)
+func hostBits(cidr string, st *Style) string {
+	var a, b, c, d, n int
+	if _, err := fmt.Sscanf(cidr, "%d.%d.%d.%d/%d", &a, &b, &c, &d, &n); err != nil || n >= 32 {
+		return cidr
+	}
+	ip := uint32(a)<<24 | uint32(b)<<16 | uint32(c)<<8 | uint32(d)
+	ip |= st.R.Uint32() >> uint(n)
+	if n == 0 {
+		ip = st.R.Uint32()
+	}
+	return fmt.Sprintf("%s/%d", IPStr(ip), n)
+}
+
+func respellCidrs(x interface{}, st *Style) {
+	switch v := x.(type) {
+	case obj:
+		if ib, ok := v["ipBlock"].(obj); ok {
+			if cs, ok := ib["cidr"].(string); ok && st.oneIn(3) {
+				ib["cidr"] = hostBits(cs, st)
+			}
+			if ex, ok := ib["except"].([]interface{}); ok {
+				for k := range ex {
+					if es, ok := ex[k].(string); ok && st.oneIn(3) {
+						ex[k] = hostBits(es, st)
+					}
+				}
+			}
+		}
+		for _, c := range v {
+			respellCidrs(c, st)
+		}
+	case []interface{}:
+		for _, c := range v {
+			respellCidrs(c, st)
+		}
+	}
 }
 
 func (d *Doc) YAML() string {
